@@ -1,4 +1,5 @@
 import TongoProofs.Lemmas.TlbSum
+import TongoProofs.Lemmas.TlbW5
 /-! The generic round-trip induction over type descriptors (property C03, theorem `decode_encode`). -/
 namespace Tongo.Tlb
 open Tongo Tongo.Bits
@@ -386,6 +387,26 @@ def RefOK (env : Env) (f : Nat) (T : Ty) (v : Val) (c : Cell) : Prop :=
   (Slice.ofCell c).isPruned = false ∧ (∃ s', decode env f T (Slice.ofCell c) = .ok (v, s')) ∧
     ((Slice.ofCell c).isLibrary = true → T = .cell ∧ v = .cell c)
 
+theorem wfRefOf_of_wfb {t : Ty} (hw : wfb env t = true) : wfRefOf t (wfb env t) = true := by
+  unfold wfRefOf
+  split <;> first | rfl | exact hw
+
+/-- the out-list of a v5 wallet as the whole content of a referenced cell -/
+theorem w5_refOK (f : Nat) (v : Val) (b' : Builder) (hd : Prim.w5Dom v = true)
+    (he : Prim.encW5Actions v Builder.empty = .ok b') :
+    RefOK env (f + 1) (.prim .w5Actions) v b'.toCell := by
+  have hcell := w5_enc v b' hd he
+  rw [hcell]
+  have hty : ∀ v, (Slice.ofCell (w5Cell v)).ty = 0 := by
+    intro v; unfold w5Cell; split <;> rfl
+  have hnl : (Slice.ofCell (w5Cell v)).isLibrary = false := by simp [Slice.isLibrary, hty, tyLibrary]
+  have hnp : (Slice.ofCell (w5Cell v)).isPruned = false := by simp [Slice.isPruned, hty, tyPruned]
+  refine ⟨hnp, ?_, fun hl => by rw [hnl] at hl; cases hl⟩
+  have hdep := w5Cell_depth v hd
+  obtain ⟨s', hs'⟩ := w5_dec v (cellDepth (Slice.ofCell (w5Cell v)).toCell + 2) [] hd (by
+    rw [Slice.toCell_ofCell]; omega)
+  exact ⟨s', by simpa [decode, hnl, Prim.dec, Prim.decW5Actions] using hs'⟩
+
 theorem ref_content (h : Inv env f) (T : Ty) (v : Val) (b' : Builder)
     (hw : wfRefOf T (wfb env T) = true) (hd : inDom env f T v = true)
     (he : encode env f T v Builder.empty = .ok b') : RefOK env f T v b'.toCell := by
@@ -441,7 +462,45 @@ theorem ref_content (h : Inv env f) (T : Ty) (v : Val) (b' : Builder)
                 Slice.toCell_ofCell, Val.some]⟩
           · cases hd1
       · cases hd
+    | prim p =>
+      by_cases hp : p = .w5Actions
+      · subst hp
+        -- *W5Actions under `maybe^`: one pointer level, then the whole-cell codec
+        simp only [inDom] at hd
+        split at hd
+        · rename_i x
+          simp only [Bool.and_eq_true] at hd
+          cases f with
+          | zero => simp [inDom] at hd
+          | succ f =>
+            have hd1 := hd.1
+            simp only [inDom, Prim.inDom] at hd1
+            simp only [encode, Prim.enc] at he
+            have hr := w5_refOK (env := env) f x b' hd1 he
+            obtain ⟨hpr, ⟨s', hdec⟩, hlib⟩ := hr
+            have hnl : (Slice.ofCell b'.toCell).isLibrary = false := by
+              by_contra hl
+              have := (hlib (by simpa using hl)).1
+              cases this
+            refine ⟨hpr, ⟨s', ?_⟩, fun hl => by rw [hnl] at hl; cases hl⟩
+            simp only [decode, hnl, Bool.false_eq_true, ↓reduceIte] at hdec
+            simp only [decode, hnl, Bool.false_eq_true, ↓reduceIte, bind, Outcome.bind, hdec, pure, Val.some]
+        · cases hd
+      · exact generic (by
+          have : wfRefOf (.ptr m (.prim p)) (wfb env (.ptr m (.prim p))) = wfb env (.ptr m (.prim p)) := by
+            cases p <;> first | rfl | exact absurd rfl hp
+          rwa [this] at hw)
     | _ => exact generic (by simpa [wfRefOf] using hw)
+  | prim p =>
+    by_cases hp : p = .w5Actions
+    · subst hp
+      simp only [inDom, Prim.inDom] at hd
+      simp only [encode, Prim.enc] at he
+      exact w5_refOK f v b' hd he
+    · exact generic (by
+        have : wfRefOf (.prim p) (wfb env (.prim p)) = wfb env (.prim p) := by
+          cases p <;> first | rfl | exact absurd rfl hp
+        rwa [this] at hw)
   | _ => exact generic (by simpa [wfRefOf] using hw)
 
 end
@@ -486,8 +545,7 @@ theorem enc_eitherRef (h : Inv env f) (t : Ty) (v : Val) (b b' : Builder) (hw : 
       split at he2
       · obtain ⟨child, hc, he3⟩ := bind_ok_inv he2
         cases he3
-        have hwr : wfRefOf t (wfb env t) = true := by
-          cases t <;> simp [wfRefOf, hw] <;> (rename_i t'; cases t' <;> simp [wfRefOf, hw])
+        have hwr : wfRefOf t (wfb env t) = true := wfRefOf_of_wfb hw
         obtain ⟨_, ⟨s', hdec⟩, _⟩ := ref_content h t x child hwr hdx hc
         refine ⟨[true], [child.toCell], ?_, ?_⟩
         · rw [hb1']; simp [Builder.app]
